@@ -19,6 +19,8 @@ HARNESSES = {
     "C01": [
         H("c01_strategies_info_accessors", "lib", "C01.K.StrategiesInfo", complete=True),
         H("playernum_ind", "lib", "K.playernum_ind", complete=True),
+        H("c01_expected_chance_tree", "lib", "C01.K.expected.chance_tree", tier="thorough", timeout=3600,
+          bounded="ONE concrete 6-node tree with nested chance below a mixed action; probabilities from small dyadic sets"),
         H("c01_get_info_recall_tree", "lib", "C01.K.get_info.recall_tree", tier="thorough", timeout=3600,
           bounded="ONE concrete 7-node perfect-recall tree; every profile with probabilities in {0, 1/2, 1}"),
     ],
